@@ -184,7 +184,7 @@ def _brink_monitor(rec, label, run, f, t, chi, real_t, cls, meta, lambdas=LAMBDA
             rec.violation("brinkmann-dtype", f"{label} returned {out.dtype}", {"meta": meta})
         O = out.astype(np.float64)
         if not np.all(np.isfinite(O)):
-            rec.violation("brinkmann-nonfinite", f"{label} lambda={lam} produced non-finite values {meta}", {"meta": meta, "f": f, "t": t, "chi": chi, "lam": lam})
+            rec.violation("brinkmann-out-of-[f,t]", f"{label} lambda={lam:g}: non-finite output values (finite field, target, indicator) {meta}", {"meta": meta, "f": f, "t": t, "chi": chi, "lam": lam})
             return
         r = float(max(np.max((lo - O) / tol), np.max((O - hi) / tol)))
         rec.stat("brinkmann_bounds", r)
@@ -679,7 +679,6 @@ def _filter(sh, rec):
                             rec.stat("filter_symbol", r)
                             if not (r <= 1):
                                 rec.violation("filter-symbol", f"m={mm[c]} ({phase}) k=pi*m/8: interior output differs from symbol {sym:.6g} x input by {r:.3g} tol {meta}", {"meta": meta, "m": mm[c], "phase": phase, "in": a, "out": g})
-                                continue
                             big = np.abs(Aq[c][I[1:]]) >= 0.5 * amp
                             if big.any():
                                 ratio = G[c][I[1:]][big] / Aq[c][I[1:]][big]
